@@ -302,6 +302,8 @@ def write_evidence(mod, prop, tier, base, wall, stats, violations_n, extra=None)
     # make sure it is JSON-clean before validating
     evidence = json.loads(json.dumps(evidence, default=repr))
     jsonschema.validate(evidence, schema)
+    if os.environ.get('VERIF_EVIDENCE') == '0':
+        return evidence  # (runs against scratch trees, e.g. the seeded-change matrix, leave the evidence files alone)
     directory = os.path.join(VERIF, 'evidence')
     os.makedirs(directory, exist_ok=True)
     with open(os.path.join(directory, f'{prop}.json'), 'w') as handle:
